@@ -89,13 +89,25 @@ def load_cfg(pid):
 
 
 def known_findings():
-    path = os.path.join(ROOT, "KNOWN_FINDINGS.jsonl")
-    out = []
-    if os.path.exists(path):
+    """Committed known findings: KNOWN_FINDINGS.jsonl (assembled by bin/mkmanifest) united with
+    checks/C*.findings.jsonl (their source).  Never written at run time."""
+    import glob
+    out, seen = [], set()
+    paths = [os.path.join(ROOT, "KNOWN_FINDINGS.jsonl")] + sorted(glob.glob(os.path.join(ROOT, "checks", "C*.findings.jsonl")))
+    for path in paths:
+        if not os.path.exists(path):
+            continue
         for line in open(path):
             line = line.strip()
             if line and not line.startswith("#"):
-                out.append(json.loads(line))
+                try:
+                    k = json.loads(line)
+                except ValueError:
+                    continue
+                key = (k.get("property"), k.get("class"), k.get("status", "known"))
+                if key not in seen:
+                    seen.add(key)
+                    out.append(k)
     return out
 
 
